@@ -97,6 +97,57 @@ def Encodes (b : Bytes) (cat : List CatEntry) (hidden : Bool) : Prop :=
     EntriesAt be b ko to 0 cat ∧
     Sorted (cat.map CatEntry.key0)
 
+/-! ### the defects named in C09's statement, each as a predicate on the bytes -/
+
+/-- the header words every reader needs are present: byte order from the magic, N, O, T -/
+structure HeaderWords (b : Bytes) (be : Bool) (n ko to : Nat) : Prop where
+  magic : Slice b 0 (magicOf be)
+  count : WordAt be b 8 n
+  keys : WordAt be b 12 ko
+  values : WordAt be b 16 to
+
+/-- descriptor `i` of the table at `tab` reads (length, offset) -/
+def DescAt (be : Bool) (b : Bytes) (tab i len off : Nat) : Prop :=
+  WordAt be b (tab + 8 * i) len ∧ WordAt be b (tab + 8 * i + 4) off
+
+def BadMagic (b : Bytes) : Prop := ¬ Slice b 0 leMagic ∧ ¬ Slice b 0 beMagic
+
+def BadMajor (b : Bytes) : Prop :=
+  ∃ be rev, Slice b 0 (magicOf be) ∧ WordAt be b 4 rev ∧ rev / 65536 > 1
+
+/-- the file ends inside the header words (including word 36 when the minor revision is 1) -/
+def HeaderBeyondEnd (b : Bytes) : Prop :=
+  b.length < 20 ∨ ∃ be rev, Slice b 0 (magicOf be) ∧ WordAt be b 4 rev ∧ rev % 65536 = 1 ∧ b.length < 40
+
+/-- some descriptor of one of the two tables lies (partly) beyond the end of the file -/
+def TableBeyondEnd (b : Bytes) : Prop :=
+  ∃ be n ko to i, HeaderWords b be n ko to ∧ i < n ∧ (b.length < ko + 8 * i + 8 ∨ b.length < to + 8 * i + 8)
+
+/-- some descriptor declares a string whose terminator position is beyond the end of the file -/
+def StringBeyondEnd (b : Bytes) : Prop :=
+  ∃ be n ko to i len off, HeaderWords b be n ko to ∧ i < n ∧
+    (DescAt be b ko i len off ∨ DescAt be b to i len off) ∧ b.length ≤ off + len
+
+/-- some declared string is not followed by NUL -/
+def MissingTerminator (b : Bytes) : Prop :=
+  ∃ be n ko to i len off c, HeaderWords b be n ko to ∧ i < n ∧
+    (DescAt be b ko i len off ∨ DescAt be b to i len off) ∧ b[off + len]? = some c ∧ c ≠ 0
+
+/-- NUL bytes inconsistent with the plural structure: a key with two NULs, or a value with a NUL under a key without -/
+def BadNulStructure (b : Bytes) : Prop :=
+  ∃ be n ko to i K V, HeaderWords b be n ko to ∧ i < n ∧
+    StringAt be b (ko + 8 * i) K ∧ StringAt be b (to + 8 * i) V ∧
+    ((∃ x y z, K = x ++ 0 :: y ++ 0 :: z) ∨ ((0 : UInt8) ∉ K ∧ (0 : UInt8) ∈ V))
+
+/-- two consecutive keys (up to their first NUL) in decreasing order -/
+def KeysOutOfOrder (b : Bytes) : Prop :=
+  ∃ be n ko to i K K', HeaderWords b be n ko to ∧ i + 1 < n ∧
+    StringAt be b (ko + 8 * i) K ∧ StringAt be b (ko + 8 * (i + 1)) K' ∧
+    K'.takeWhile (· ≠ 0) < K.takeWhile (· ≠ 0)
+
+/-- "is a legal MO file of some well-formed catalog" -/
+def WellFormedFile (b : Bytes) : Prop := ∃ cat hidden, Encodes b cat hidden ∧ ∀ e ∈ cat, e.WF
+
 /-! ### what loading such a file should give -/
 
 /-- the charset a reader uses: the `encoding` it was given, else the one named after the first `charset=` in the
@@ -213,12 +264,13 @@ def serialize (cat : List CatEntry) (l : Layout) : Bytes :=
 def Layout.hidden (l : Layout) : Bool :=
   if l.minor > 1 then true else if l.minor = 1 then decide (l.nSysdep > 0) else false
 
-/-- side conditions under which `serialize` is a legal file: fields fit, and a minor-1 header really carries
-    word 36 -/
+/-- side conditions under which `serialize` is a legal file: fields fit, a minor-1 header really carries
+    word 36, and the catalog is in key order -/
 structure Layout.OK (l : Layout) (cat : List CatEntry) : Prop where
   major_le : l.major ≤ 1
   minor_lt : l.minor < 65536
   size : (serialize cat l).length < 2 ^ 32
   sysdep : l.minor = 1 → l.nSysdep < 2 ^ 32 ∧ ∃ x y, l.headerExtra = x ++ encodeWord l.be l.nSysdep ++ y ∧ x.length = 16
+  sorted : Sorted (cat.map CatEntry.key0)
 
 end I18n.Mo.Spec
